@@ -112,7 +112,7 @@ class TwoEndedLink(link.Link):
         if (old is not None) and not any(v is old for v in self._vertices):
             old.remove_from_link(self)
 
-        if (new is not None) and (self not in new.links):
+        if (new is not None) and not any(lnk is self for lnk in new.links):
             new.add_to_link(self)
 
         # the vertex at the other end has a different neighbor now, too
